@@ -344,20 +344,107 @@ Proof.
   - left. split; [unfold norm_id; destruct (Z.leb_spec c 0); lia|exact E].
 Qed.
 
+(* pigeonhole: the candidates nextID() probes are consecutive ids (wrapping from MaxInt64
+   to 1), len(refer)+1 of them are pairwise distinct, so they cannot all be in the map *)
+Definition maxid : Z := 2 ^ 63 - 1.
+Definition cand (c0 : Z) (k : Z) : Z := (c0 - 1 + k) mod maxid + 1.
+
+Lemma norm_range c : c <= maxid -> 1 <= norm_id c <= maxid.
+Proof. unfold norm_id, maxid. intros H. destruct (Z.leb_spec c 0); lia. Qed.
+
+Lemma step_cand c : 1 <= c <= maxid -> norm_id (wrap64 (c + 1)) = cand c 1 /\ wrap64 (c + 1) <= maxid.
+Proof.
+  unfold norm_id, wrap64, cand, maxid. intros H.
+  destruct (Z.leb_spec (2 ^ 63) (c + 1)) as [H1|H1].
+  - assert (c = 2 ^ 63 - 1) by lia. subst c. split; [vm_compute; reflexivity|vm_compute; discriminate].
+  - destruct (Z.leb_spec (c + 1) 0); [lia|]. split; [|lia].
+    replace (c - 1 + 1) with c by lia. rewrite Z.mod_small by lia. reflexivity.
+Qed.
+
+Lemma cand_0 c : 1 <= c <= maxid -> cand c 0 = c.
+Proof. unfold cand, maxid. intros H. replace (c - 1 + 0) with (c - 1) by lia. rewrite Z.mod_small by lia. lia. Qed.
+
+Lemma cand_succ c k : 1 <= c <= maxid -> 0 <= k -> cand (cand c 1) k = cand c (k + 1).
+Proof.
+  unfold cand, maxid. intros H Hk.
+  replace ((c - 1 + 1) mod (2 ^ 63 - 1) + 1 - 1 + k) with ((c - 1 + 1) mod (2 ^ 63 - 1) + k) by lia.
+  rewrite Z.add_mod_idemp_l by lia. f_equal. f_equal. lia.
+Qed.
+
+Lemma cand_range c k : 1 <= cand c k <= maxid.
+Proof. unfold cand, maxid. pose proof (Z.mod_pos_bound (c - 1 + k) (2 ^ 63 - 1) ltac:(lia)). lia. Qed.
+
+Lemma cand_inj c i j : 0 <= i < maxid -> 0 <= j < maxid -> cand c i = cand c j -> i = j.
+Proof.
+  unfold cand, maxid. intros Hi Hj E.
+  assert (E' : (c - 1 + i) mod (2 ^ 63 - 1) = (c - 1 + j) mod (2 ^ 63 - 1)) by lia.
+  pose proof (Z.div_mod (c - 1 + i) (2 ^ 63 - 1) ltac:(lia)) as D1.
+  pose proof (Z.div_mod (c - 1 + j) (2 ^ 63 - 1) ltac:(lia)) as D2.
+  pose proof (Z.mod_pos_bound (c - 1 + i) (2 ^ 63 - 1) ltac:(lia)).
+  pose proof (Z.mod_pos_bound (c - 1 + j) (2 ^ 63 - 1) ltac:(lia)).
+  rewrite E' in D1.
+  assert ((c - 1 + i) / (2 ^ 63 - 1) = (c - 1 + j) / (2 ^ 63 - 1)) by nia. lia.
+Qed.
+
+Lemma exhausted_in fuel : forall c refer,
+  c <= maxid -> exhausted fuel c refer ->
+  forall k, (k < fuel)%nat -> In (cand (norm_id c) (Z.of_nat k)) refer.
+Proof.
+  induction fuel as [|f IH]; intros c refer Hc Hex k Hk; [lia|].
+  cbn [exhausted] in Hex. destruct Hex as [Hm Hex]. pose proof (norm_range c Hc) as Hr.
+  destruct (step_cand (norm_id c) Hr) as [Es Hle].
+  destruct k as [|k].
+  - cbn [Z.of_nat]. rewrite cand_0 by exact Hr. apply mem_In. exact Hm.
+  - specialize (IH (wrap64 (norm_id c + 1)) refer Hle Hex k ltac:(lia)).
+    rewrite Es in IH. rewrite cand_succ in IH by lia.
+    replace (Z.of_nat (S k)) with (Z.of_nat k + 1) by lia. exact IH.
+Qed.
+
+Lemma nodup_map_seq (f : nat -> Z) n :
+  (forall i j, (i < n)%nat -> (j < n)%nat -> f i = f j -> i = j) -> NoDup (map f (seq 0 n)).
+Proof.
+  induction n as [|n IH]; intros H; [constructor|].
+  rewrite seq_S, map_app. cbn [map Nat.add]. apply nodup_app_intro.
+  - apply IH. intros i j Hi Hj. apply H; lia.
+  - constructor; [intros []|constructor].
+  - intros x Hx [<-|[]]. apply in_map_iff in Hx. destruct Hx as [i [Ei Hi]]. apply in_seq in Hi.
+    assert (i = n) by (apply H; [lia|lia|exact Ei]). lia.
+Qed.
+
+Lemma not_exhausted c refer :
+  c <= maxid -> Z.of_nat (length refer) < maxid -> ~ exhausted (S (length refer)) c refer.
+Proof.
+  intros Hc Hlen Hex.
+  pose proof (exhausted_in (S (length refer)) c refer Hc Hex) as Hin.
+  set (f := fun k : nat => cand (norm_id c) (Z.of_nat k)).
+  assert (Hnd : NoDup (map f (seq 0 (S (length refer))))).
+  { apply nodup_map_seq. intros i j Hi Hj E. unfold f in E. apply cand_inj in E; lia. }
+  assert (Hincl : incl (map f (seq 0 (S (length refer)))) refer).
+  { intros x Hx. apply in_map_iff in Hx. destruct Hx as [k [<- Hk]]. apply in_seq in Hk. apply Hin. lia. }
+  pose proof (NoDup_incl_length Hnd Hincl) as Hl. rewrite map_length, seq_length in Hl. lia.
+Qed.
+
+Lemma wrap64_le z : z <= 2 ^ 63 -> wrap64 z <= maxid.
+Proof. unfold wrap64, maxid. intros H. destruct (Z.leb_spec (2 ^ 63) z); lia. Qed.
+
+(* the id handed out is positive and not in use: with the counter anywhere in the range of
+   a Go int, whatever the map holds (fewer than 2^63-1 timers) *)
 Lemma alloc_unique next refer :
-  ~ exhausted (Z.to_nat 10000) (wrap64 (next + 1)) refer ->
+  next < 2 ^ 63 -> Z.of_nat (length refer) < maxid ->
   0 < alloc_id next refer /\ ~ In (alloc_id next refer) refer.
 Proof.
-  intros Hne. unfold alloc_id. destruct (next_id_loop_spec (Z.to_nat 10000) (wrap64 (next + 1)) refer) as [[H1 H2]|H]; [|contradiction].
-  split; [exact H1|]. intros Hin. apply mem_In in Hin. congruence.
+  intros Hn Hlen. unfold alloc_id.
+  destruct (next_id_loop_spec (S (length refer)) (wrap64 (next + 1)) refer) as [[H1 H2]|H].
+  - split; [exact H1|]. intros Hin. apply mem_In in Hin. congruence.
+  - exfalso. apply (not_exhausted (wrap64 (next + 1)) refer); [apply wrap64_le; lia|exact Hlen|exact H].
 Qed.
 
 (* the step itself: a start at ANY counter value, in any state *)
 Lemma start_unique_wrap m d :
-  ~ exhausted (Z.to_nat 10000) (wrap64 (snext m + 1)) (srefer m) ->
+  snext m < 2 ^ 63 -> Z.of_nat (length (srefer m)) < maxid ->
   exists b id, snd (step m (Start d)) = OId b id /\ 0 < id /\ ~ In id (srefer m).
 Proof.
-  intros H. destruct (alloc_unique (snext m) (srefer m) H) as [H1 H2].
+  intros Hn Hl. destruct (alloc_unique (snext m) (srefer m) Hn Hl) as [H1 H2].
   cbn [step]. unfold schedule. cbn [snd]. eexists _, _. split; [reflexivity|]. split; [exact H1|exact H2].
 Qed.
 
